@@ -1,4 +1,5 @@
 import Qryn.Proofs.LogQLMetric
+import Qryn.Proofs.MetricPlan
 /-! # C08 — the SQL generated for LogQL metric queries computes the defined aggregates
 
 Model: `LogQL.planMetric` (tied byte-for-byte to the real planner's SQL text by the `text` stream, its step
@@ -309,6 +310,21 @@ theorem gen_unwrap_ops : unwrapOpsModel = Gen.LogQLOps.unwrapOps := unwrapOps_eq
 theorem gen_agg_ops : aggOpsModel = Gen.LogQLOps.aggOps := aggOps_eq
 theorem gen_shortcut_ops : shortcutOpsModel = Gen.LogQLOps.shortcutOps := shortcutOps_eq
 theorem gen_cmp_ops : cmpOpsModel = Gen.LogQLOps.cmpOps := cmpOps_eq
+
+/-! ## the whole plan -/
+
+/-- **plan_metric_correct, class `rangeFn({selector} [d]) [cmp]`** — rate, count_over_time, bytes_rate,
+    bytes_over_time over a selector of the C07 fragment, samples path (the metrics_15s shortcut not taken),
+    step ≤ range. For every context, every database and every such query, evaluating the generated statement
+    (`fp_sel` chain, `agg_a`, the LRA select with its optional HAVING, the labels join, the final ORDER BY) and reading
+    the value column as a number gives exactly the matrix of the direct reading: one point per (selected stream,
+    range bucket containing a matching entry of `[from, to)`), valued by the range function over exactly those
+    entries, filtered by the comparison, labelled with the stream's labels, ordered by (fingerprint, timestamp). -/
+theorem plan_metric_correct_range (o : Oracles) (c : MCtx) (hn : c.namesOk) (d : LokiDb) (r : RangeAgg) (fn : RangeFn)
+    (hk : r.kind = .lra fn) (hm : r.sel.matchers.length ≤ 63) (hms : 1000000 ∣ r.durNs) (hd : 0 < r.durNs)
+    (hs : takesShortcut (.range r) = false) (hstep : c.stepNs ≤ (r.durNs : Int)) :
+    (evalSelA o (d.toDbM c) (planMetric c (.range r))).map normRow = evalMetric o c d (.range r) :=
+  planMetric_range_lra o c hn d r fn hk hm hms hd hs hstep
 
 /-! ## non-vacuity -/
 example : LraRows [[("_string", .str [97, 98])]] [⟨1, 5, [97, 98], 1⟩] := by unfold LraRows; decide
